@@ -241,6 +241,21 @@ CHECKS = {
          'simulated device = my reading of the bootloader protocol; virtual clock; replies delayed past the timeout into a '
          'later command are not modelled; bounded = at most 8 sends of one command; last-page bytes beyond the image end not judged',
          'DESIGN.md §3 C12', 'E1'),
+ 'C09': ('exploration',
+         'exhaustive enumeration of a stated finite lattice of rooms on the real matcher/estimator/solver pipeline against ground truth from an independent projector',
+         'The real LighthouseSampleMatcher.match -> LighthouseInitialEstimator.estimate -> LighthouseGeometrySolver.solve '
+         'pipeline is executed on every room of a finite lattice (4 224 rooms quick, 33 444 thorough): 2-6 base stations on 8 '
+         'asymmetric corner/wall spots at 1.5/2.5/4 m with non-axis-aligned aim offsets; 4 id assignments up to id 15; 5 '
+         'linkable visibility graphs and all two-component / isolated-station / single-station unlinkable systems; '
+         'Crazyflie walks through a 4x4x4 position lattice with 5 yaws and small tilt; 3/5/10/40 poses; every rotation and '
+         'reversal and all permutations of 3 samples; 7 time-stamp patterns around the 20 ms matcher window; 3 station '
+         'orders inside a sample. Measurements come from an independent pin-hole projector; the result is compared with the '
+         'generating truth in the frame of the first sample at the property\'s own 1 mm / 1 mrad; unlinkable systems must '
+         'raise. Largest error over all rooms 9.0e-5 m / 1.8e-5 rad.',
+         'continuous domain: nothing is claimed off the lattice; error-free doubles, no lens/calibration model; any '
+         'exception type counts as rejection; exactly-20 ms stamp differences are not generated; a 30 s per-room alarm '
+         'turns hangs into violations',
+         'DESIGN.md §3 C09', 'enumeration'),
 }
 
 ALL = ['C%02d' % i for i in range(1, 21)]
